@@ -285,6 +285,9 @@ impl<const K: usize> AffTree<K> {
                 counter.skipped_nodes += self.tree.num_nodes(node_idx) - 1;
             }
 
+            #[cfg(feature = "verif-hooks")]
+            crate::verif_hooks::trace_state(node_idx, &state);
+
             let node_value = self.tree.node_value_mut(node_idx).unwrap();
             node_value.state = state;
 
